@@ -551,3 +551,146 @@ impl CaseSpace for OverflowPerType {
         res
     }
 }
+
+// ---------------------------------------------------------------------------------------
+// (R) release out of buffer order
+// ---------------------------------------------------------------------------------------
+
+/// Two points of one type in different classes; events are released in every order the master
+/// can cause (read one class, read one event of a class, read everything) while older events of
+/// the other class stay behind.  Reference: a plain list.
+pub struct ReleaseOrder {
+    pub ty: usize,
+    pub depth: usize,
+}
+
+#[derive(Clone, Copy, Debug, PartialEq)]
+enum REv {
+    Upd(u8),
+    /// READ of class c (all events) and confirm
+    Read(u8),
+    /// READ of class c limited to one event and confirm
+    ReadOne(u8),
+    ReadAll,
+}
+
+const RALPHA: [REv; 7] = [REv::Upd(1), REv::Upd(2), REv::Read(1), REv::Read(2), REv::ReadOne(1), REv::ReadOne(2), REv::ReadAll];
+
+impl Scenario for ReleaseOrder {
+    fn name(&self) -> String {
+        format!("release-order-{}-d{}", TYPES[self.ty], self.depth)
+    }
+    fn alphabet(&self) -> Vec<String> {
+        RALPHA.iter().map(|e| format!("{e:?}")).collect()
+    }
+    fn depth(&self) -> usize {
+        self.depth
+    }
+    fn run(&self, path: &[usize], transcript: bool) -> RunResult {
+        let mut res = RunResult::default();
+        let mut obs = Hasher::default();
+        let cfg = OCfg { event_buf: [50; 8], confirm_timeout_ms: TO, class_zero_octet_strings: true, ..Default::default() };
+        let mut sim = OSim::new(&cfg, 1);
+        let ty = self.ty;
+        sim.db(|db| {
+            add_point(db, ty, 1, EventClass::Class1);
+            add_point(db, ty, 2, EventClass::Class2);
+        });
+        sim.take_cb();
+        sim.take_out();
+        let key = format!("release-order:{}", TYPES[ty]);
+        let mut alive: Vec<(u64, u8, u64)> = Vec::new(); // update number, class, id
+        let mut next_n = 0u64;
+        let mut per_point = [0u64; 3];
+        let mut seq = 0u8;
+        let mut steps: Vec<REv> = path.iter().map(|i| RALPHA[*i]).collect();
+        steps.push(REv::ReadAll);
+        for (si, ev) in steps.iter().enumerate() {
+            res.transitions += 1;
+            obs.add_str(&format!("{ev:?}"));
+            match ev {
+                REv::Upd(c) => {
+                    let k = next_n;
+                    next_n += 1;
+                    per_point[*c as usize] += 1;
+                    let info = sim.db(|db| update_v(db, ty, *c as u16, k, per_point[*c as usize], false));
+                    match info {
+                        UpdateInfo::Created(id) => alive.push((k, *c, id)),
+                        other => {
+                            res.violation = Some(Violation::new("C03.O1", key.clone(), format!("update #{k} reported {other:?} with {} of 50 events buffered", alive.len())));
+                            break;
+                        }
+                    }
+                }
+                REv::Read(_) | REv::ReadOne(_) | REv::ReadAll => {
+                    let (objs, want): (Vec<u8>, Vec<(u64, u8, u64)>) = match ev {
+                        REv::Read(c) => (app::hdr_all(60, 1 + *c), alive.iter().filter(|a| a.1 == *c).cloned().collect()),
+                        REv::ReadOne(c) => (app::hdr_count8(60, 1 + *c, 1), alive.iter().filter(|a| a.1 == *c).take(1).cloned().collect()),
+                        _ => (app::class_headers(true, true, true, false), alive.clone()),
+                    };
+                    seq = (seq + 1) & 0x0F;
+                    sim.take_out();
+                    sim.send(&app::request(seq, fc::READ, &objs));
+                    let Some(r) = responses(&mut sim).into_iter().last() else {
+                        res.violation = Some(Violation::new("C03.O2", key.clone(), format!("step {si} {ev:?}: READ not answered")));
+                        break;
+                    };
+                    let got = match carried(&r.objects) {
+                        Ok(x) => x,
+                        Err(e) => {
+                            res.violation = Some(Violation::new("C03.O2", key.clone(), e));
+                            break;
+                        }
+                    };
+                    let want_n: Vec<u64> = want.iter().map(|w| w.0).collect();
+                    if transcript {
+                        res.transcript.push(format!("{ev:?}: carries updates {got:?}, buffered {:?}", alive.iter().map(|a| (a.0, a.1)).collect::<Vec<_>>()));
+                    }
+                    // class 1 is reported before class 2 in a read of everything; within a class oldest first
+                    let mut got_sorted = got.clone();
+                    got_sorted.sort();
+                    let mut want_sorted = want_n.clone();
+                    want_sorted.sort();
+                    if got_sorted != want_sorted {
+                        res.violation = Some(Violation::new(
+                            "C03.O3",
+                            key.clone(),
+                            format!("step {si} {ev:?}: the response carries updates {got:?}; buffered and selected: {want_n:?}"),
+                        ));
+                        break;
+                    }
+                    if r.con() {
+                        sim.send(&app::confirm(r.seq(), false));
+                    }
+                    let mut rel = cleared(&mut sim);
+                    rel.sort();
+                    let mut want_ids: Vec<u64> = want.iter().map(|w| w.2).collect();
+                    want_ids.sort();
+                    if rel != want_ids {
+                        res.violation = Some(Violation::new("C03.O4", key.clone(), format!("step {si} {ev:?}: released ids {rel:?}, confirmed ids {want_ids:?}")));
+                        break;
+                    }
+                    alive.retain(|a| !want.iter().any(|w| w.0 == a.0));
+                    if !want.is_empty() {
+                        res.nontrivial = true;
+                    }
+                }
+            }
+            if let Some(f) = sim.failure() {
+                res.violation = Some(Violation::new("C03.X0", f.clone(), f));
+                break;
+            }
+            res.model_states.push(alive.iter().fold(alive.len() as u64, |h, a| h * 3 + a.1 as u64));
+        }
+        res.obs = obs.0;
+        res
+    }
+}
+
+pub fn release_orders(tier: &str) -> Vec<ReleaseOrder> {
+    if tier == "quick" {
+        vec![ReleaseOrder { ty: 0, depth: 6 }]
+    } else {
+        vec![ReleaseOrder { ty: 0, depth: 7 }, ReleaseOrder { ty: 5, depth: 6 }, ReleaseOrder { ty: 7, depth: 6 }]
+    }
+}
